@@ -6,7 +6,9 @@ import (
 	"fmt"
 	"io"
 	"net"
+	"net/url"
 	"os"
+	"strconv"
 	"strings"
 	"syscall"
 
@@ -284,6 +286,13 @@ func init() {
 		Build: func(s []string, _ error, _ []error) error { return &errorspb.TestError{} },
 		Model: func(s []string, _ *Node, _ []*Node) *Node { return Leaf("test error") }})
 
+	reg(&Op{Name: "net.DNSError", Kind: KLeaf, Slots: unsafe("err", "name"), Class: "foreign-leaf", Unreg: true,
+		Build: func(s []string, _ error, _ []error) error { return &net.DNSError{Err: s[0], Name: s[1]} },
+		Model: func(s []string, _ *Node, _ []*Node) *Node { return foreignLeaf("lookup "+s[1]+": "+s[0], s[0], s[1]) }})
+	reg(&Op{Name: "ut.AsTargetLeaf", Kind: KLeaf, Slots: unsafe("from"), Class: "user-leaf", Unreg: true,
+		Build: func(s []string, _ error, _ []error) error { return &ut.AsTarget{From: s[0]} },
+		Model: func(s []string, _ *Node, _ []*Node) *Node { return foreignLeaf("as-target from "+s[0], s[0]) }})
+
 	// user leaves
 	uleaf := func(name string, unreg bool, mk func(m string) error) *Op {
 		return reg(&Op{Name: name, Kind: KLeaf, Slots: unsafe("msg"), Class: "user-leaf", Unreg: unreg,
@@ -533,6 +542,50 @@ func init() {
 			return Stack(Secondary(Secondary(f, side[0]), c))
 		}})
 
+	// more standard-library wrappers
+	reg(&Op{Name: "url.Error", Kind: KWrap, Slots: unsafe("op", "url"), Class: "foreign-prefix", Unreg: true,
+		Build: func(s []string, c error, _ []error) error { return &url.Error{Op: s[0], URL: s[1], Err: c} },
+		Model: func(s []string, c *Node, _ []*Node) *Node {
+			own := s[0] + " " + strconv.Quote(s[1])
+			n := Prefix(own, c)
+			n.Text = own + ": " + c.Text
+			n.Unsafe = s
+			return n
+		}})
+	reg(&Op{Name: "strconv.NumError", Kind: KWrap, Slots: unsafe("func", "num"), Class: "foreign-prefix", Unreg: true,
+		Build: func(s []string, c error, _ []error) error { return &strconv.NumError{Func: s[0], Num: s[1], Err: c} },
+		Model: func(s []string, c *Node, _ []*Node) *Node {
+			own := "strconv." + s[0] + ": parsing " + strconv.Quote(s[1])
+			n := Prefix(own, c)
+			n.Text = own + ": " + c.Text
+			n.Unsafe = s
+			return n
+		}})
+	// constructor shapes that select other branches of the library
+	reg(&Op{Name: "Wrapf_emptyarg", Kind: KWrap, Class: "stack", Lib: true,
+		Build: func(s []string, c error, _ []error) error { return errors.Wrapf(c, "%s", "") },
+		Model: func(s []string, c *Node, _ []*Node) *Node { return Stack(libPrefix("", c, nil, nil)) }})
+	reg(&Op{Name: "WithMessagef_emptyarg", Kind: KWrap, Class: "prefix", Lib: true,
+		Build: func(s []string, c error, _ []error) error { return errors.WithMessagef(c, "%s", errors.Safe("")) },
+		Model: func(s []string, c *Node, _ []*Node) *Node { return libPrefix("", c, nil, nil) }})
+	reg(&Op{Name: "WithMessage_empty", Kind: KWrap, Class: "prefix", Lib: true,
+		Build: func(s []string, c error, _ []error) error { return errors.WithMessage(c, "") },
+		Model: func(s []string, c *Node, _ []*Node) *Node { return libPrefix("", c, nil, nil) }})
+	annot("WithTelemetry0", nil, func(s []string, c error) error { return errors.WithTelemetry(c) },
+		func(s []string, n *Node) {})
+	annot("WrapWithGrpcCode_Unknown", nil, func(s []string, c error) error { return extgrpc.WrapWithGrpcCode(c, codes.Unknown) },
+		func(s []string, n *Node) { n.GRPC = int(codes.Unknown) })
+	// an error that came over the network and is then wrapped locally
+	// (mixed decoded / native chain)
+	reg(&Op{Name: "HopThenWrap", Kind: KWrap, Slots: safe("msg"), Class: "prefix", Lib: true,
+		Build: func(s []string, c error, _ []error) error { d, _ := HopK(c); return errors.Wrap(d, s[0]) },
+		Model: func(s []string, c *Node, _ []*Node) *Node {
+			if s[0] == "" {
+				return Stack(c)
+			}
+			return Stack(libPrefix(s[0], c, s, nil))
+		}})
+
 	// pkg/errors
 	reg(&Op{Name: "PkgWithMessage", Kind: KWrap, Slots: unsafe("msg"), Class: "foreign-prefix",
 		Build: func(s []string, c error, _ []error) error { return pkgerrors.WithMessage(c, s[0]) },
@@ -673,6 +726,34 @@ func init() {
 		Build: func(s []string, c error, side []error) error { return errors.Join(nil, c, nil, side[0], side[1], nil) },
 		Model: func(s []string, c *Node, side []*Node) *Node {
 			m := multi(joinText(br(c, side)), br(c, side))
+			m.Lib = true
+			return Stack(m)
+		}})
+	// the caller re-uses the slice it spread into Join
+	reg(&Op{Name: "Join_spread_then_mutate", Kind: KMulti, NSide: 1, Class: "multi", Lib: true,
+		Build: func(s []string, c error, side []error) error {
+			sl := []error{c, side[0]}
+			j := errors.Join(sl...)
+			sl[0], sl[1] = goerrors.New("overwritten-0"), nil
+			return j
+		},
+		Model: func(s []string, c *Node, side []*Node) *Node {
+			m := multi(joinText(br(c, side)), br(c, side))
+			m.Lib = true
+			return Stack(m)
+		}})
+	// the same error object reachable through two branches (a DAG)
+	reg(&Op{Name: "JoinShared", Kind: KMulti, Slots: safe("a", "b"), Class: "multi", Lib: true,
+		Build: func(s []string, c error, _ []error) error { return errors.Join(errors.Wrap(c, s[0]), errors.Wrap(c, s[1])) },
+		Model: func(s []string, c *Node, _ []*Node) *Node {
+			mkb := func(p string) *Node {
+				if p == "" {
+					return Stack(c)
+				}
+				return Stack(libPrefix(p, c, []string{p}, nil))
+			}
+			bs := []*Node{mkb(s[0]), mkb(s[1])}
+			m := multi(joinText(bs), bs)
 			m.Lib = true
 			return Stack(m)
 		}})
